@@ -210,7 +210,7 @@ func c02Judge(op, impl, model string) Verdict {
 	if len(ip) > 2 && ip[2] != "" {
 		v.OracleFail = ip[2]
 		v.Sig = "xrt:" + strings.Join(strings.Fields(ip[2])[:2], "-")
-		if strings.HasPrefix(ip[2], "KEEPSPACE indented round trip") {
+		if strings.HasPrefix(ip[2], "KEEPSPACE indented round trip") && !strings.Contains(ip[2], "; ") {
 			v.Sig = "xrt:keepspace-indent-blank-text"
 		}
 	}
